@@ -377,7 +377,7 @@ fn json_escape_string() -> goast::Fn {
     }
 }
 
-fn to_string_fn(name: &str, ty: goty::GoType) -> goast::Fn {
+fn to_string_fn(name: &str, ty: goty::GoType, verb: &str) -> goast::Fn {
     let fmt_ty = goty::GoType::TFunc {
         params: vec![goty::GoType::TString, ty.clone()],
         ret_ty: Box::new(goty::GoType::TString),
@@ -395,7 +395,7 @@ fn to_string_fn(name: &str, ty: goty::GoType) -> goast::Fn {
                     }),
                     args: vec![
                         goast::Expr::String {
-                            value: "%d".to_string(),
+                            value: verb.to_string(),
                             ty: goty::GoType::TString,
                         },
                         goast::Expr::Var {
@@ -411,43 +411,43 @@ fn to_string_fn(name: &str, ty: goty::GoType) -> goast::Fn {
 }
 
 fn int8_to_string() -> goast::Fn {
-    to_string_fn("int8_to_string", goty::GoType::TInt8)
+    to_string_fn("int8_to_string", goty::GoType::TInt8, "%d")
 }
 
 fn int16_to_string() -> goast::Fn {
-    to_string_fn("int16_to_string", goty::GoType::TInt16)
+    to_string_fn("int16_to_string", goty::GoType::TInt16, "%d")
 }
 
 fn int32_to_string() -> goast::Fn {
-    to_string_fn("int32_to_string", goty::GoType::TInt32)
+    to_string_fn("int32_to_string", goty::GoType::TInt32, "%d")
 }
 
 fn int64_to_string() -> goast::Fn {
-    to_string_fn("int64_to_string", goty::GoType::TInt64)
+    to_string_fn("int64_to_string", goty::GoType::TInt64, "%d")
 }
 
 fn uint8_to_string() -> goast::Fn {
-    to_string_fn("uint8_to_string", goty::GoType::TUint8)
+    to_string_fn("uint8_to_string", goty::GoType::TUint8, "%d")
 }
 
 fn uint16_to_string() -> goast::Fn {
-    to_string_fn("uint16_to_string", goty::GoType::TUint16)
+    to_string_fn("uint16_to_string", goty::GoType::TUint16, "%d")
 }
 
 fn uint32_to_string() -> goast::Fn {
-    to_string_fn("uint32_to_string", goty::GoType::TUint32)
+    to_string_fn("uint32_to_string", goty::GoType::TUint32, "%d")
 }
 
 fn uint64_to_string() -> goast::Fn {
-    to_string_fn("uint64_to_string", goty::GoType::TUint64)
+    to_string_fn("uint64_to_string", goty::GoType::TUint64, "%d")
 }
 
 fn float32_to_string() -> goast::Fn {
-    to_string_fn("float32_to_string", goty::GoType::TFloat32)
+    to_string_fn("float32_to_string", goty::GoType::TFloat32, "%g")
 }
 
 fn float64_to_string() -> goast::Fn {
-    to_string_fn("float64_to_string", goty::GoType::TFloat64)
+    to_string_fn("float64_to_string", goty::GoType::TFloat64, "%g")
 }
 
 fn string_len() -> goast::Fn {
